@@ -11,8 +11,8 @@ Everything outside the loop is a parameter (`Env`), chosen adversarially:
   * `dur k`, `out k` — duration and outcome of the k-th poll function call (`doPoll`, `read_*`, `initialReads`),
   * `touch k` — parameter time stamps set while the k-th call ran (`announceUpdate`),
   * `ext k`   — what other threads did to the `PollInfo`s while the k-th call ran (each also sets the trigger event),
-  * `wake k`  — the k-th `triggerPoll.wait`: `none` = runs into its time-out, `some (d, exts)` = after `d` ticks
-                another thread does `exts` and sets the event.
+  * `wake k`  — the k-th `triggerPoll.wait`: what other threads do while it lasts, as batches `(d, exts)`: `d` ticks after
+                the wait began `exts` happen; the wait ends there if that set the event, otherwise at its time-out.
 
     while modules:
         now = time.time()                                                     -- readClock
@@ -103,7 +103,7 @@ structure Env where
   out : Nat → Outcome
   touch : Nat → List Touch
   ext : Nat → List Ext
-  wake : Nat → Option (Nat × List Ext)
+  wake : Nat → List (Nat × List Ext)
 
 /-- an entry of `to_poll`: (module index, parameter) -/
 abbrev Entry := Nat × Nat
@@ -160,8 +160,23 @@ def applyExtMods (mods : List Mod) : Ext → List Mod
   | .trigger m imm => updAt (extTrigger imm) m mods
   | .triggerAll => mods.map extTriggerAll
 
+def hasPollInfo (mods : List Mod) (m : Nat) : Bool :=
+  match mods[m]? with
+  | some mo => mo.enabled
+  | none => false
+
+/-- does the action set the trigger event?  `update_interval` does nothing at all while fast polling is on;
+`setFastPoll` and `trigger` need a `PollInfo`. -/
+def extTriggers (mods : List Mod) : Ext → Bool
+  | .updateInterval m _ => match mods[m]? with
+    | some mo => mo.enabled && !mo.fast
+    | none => false
+  | .setFastPoll m _ _ => hasPollInfo mods m
+  | .trigger m _ => hasPollInfo mods m
+  | .triggerAll => true
+
 def applyExt (σ : PollState) (e : Ext) : PollState :=
-  { σ with mods := applyExtMods σ.mods e, trig := true }
+  { σ with mods := applyExtMods σ.mods e, trig := σ.trig || extTriggers σ.mods e }
 
 def applyExts (es : List Ext) (σ : PollState) : PollState := es.foldl applyExt σ
 
@@ -194,16 +209,19 @@ def wakeAt (c : Consts) (now : Nat) : List Mod → Nat
     if m.enabled then Nat.min (Nat.min (m.lastMain + m.interval) (m.lastSlow + m.slow)) (wakeAt c now ms)
     else wakeAt c now ms
 
+/-- a wait that began at `t0`: other threads act in batches; the first batch that sets the event ends the wait -/
+def waitBatches (timeout t0 : Nat) : List (Nat × List Ext) → PollState → PollState
+  | [], σ => { σ with clock := t0 + timeout }
+  | (d, exts) :: rest, σ =>
+    if d ≤ timeout then
+      let σ1 := applyExts exts σ
+      if σ1.trig then { σ1 with clock := t0 + d } else waitBatches timeout t0 rest σ1
+    else { σ with clock := t0 + timeout }
+
 /-- `self.triggerPoll.wait(timeout)` -/
 def waitEvent (env : Env) (σ : PollState) (timeout : Nat) : PollState :=
   let k := σ.nWait
-  let σ1 : PollState :=
-    if σ.trig then σ
-    else match env.wake k with
-      | some (d, exts) =>
-        if d ≤ timeout then applyExts exts { σ with clock := σ.clock + d }
-        else { σ with clock := σ.clock + timeout }
-      | none => { σ with clock := σ.clock + timeout }
+  let σ1 : PollState := if σ.trig then σ else waitBatches timeout σ.clock (env.wake k) σ
   { σ1 with nWait := k + 1 }
 
 /-- `self.triggerPoll.wait(wait_time); self.triggerPoll.clear()` -/
